@@ -157,10 +157,15 @@ def lib_probe(rng):
 def lib_polluter(rng):
     cls = rng.choice(sorted(LIB_CTORS))
     lines = ["导入《@HTTP》", ""]
-    if rng.random() < 0.3:
+    r0 = rng.random()
+    params = "甲、乙" if cls == "HTTP响应" else "甲、乙、丙"
+    if r0 < 0.2:
         # the program gives the library's type a constructor of its own
-        params = "甲、乙" if cls == "HTTP响应" else "甲、乙、丙"
         lines += ["如何新建%s？" % cls, "    输入%s" % params, "    其%s = %s" % (rng.choice(LIB_PROPS[cls]), rng.choice(["“占”", "999"])), ""]
+    elif r0 < 0.35:
+        # ... under another name: the type handed to a method as an argument
+        lines += ["如何改？", "    输入型", "    如何新建型？", "        输入%s" % params,
+                  "        其%s = %s" % (rng.choice(LIB_PROPS[cls]), rng.choice(["“占”", "999"])), "    输出1", "", "（改：%s）" % cls]
     lines.append("令乙 = %s" % rng.choice([c for c in LIB_CTORS[cls] if c.count("、") == (1 if cls == "HTTP响应" else 2)] or LIB_CTORS[cls]))
     for _ in range(rng.randrange(1, 5)):
         k = rng.randrange(6)
